@@ -674,3 +674,49 @@ func Blocked(id string) string {
 	}
 	return ""
 }
+
+// ---- map iteration order
+
+var mapSeed atomic.Uint64
+
+// SetMapSeed sets the seed that decides the iteration order of every
+// instrumented `for ... range <map>` (0: canonical sorted order). It is a
+// process-wide setting so that single-task simulations (no scheduler) can use
+// it too; one simulated run executes at a time per process.
+func SetMapSeed(seed uint64) { mapSeed.Store(seed) }
+
+// MapKeys returns the keys of m in an order that is a pure function of
+// (map seed, site, key set): the keys are ranked by a keyed hash of their
+// printed form. Stateless, so concurrent callers cannot perturb each other.
+func MapKeys[M ~map[K]V, K comparable, V any](site string, m M) []K {
+	type kh struct {
+		k K
+		h uint64
+		s string
+	}
+	seed := mapSeed.Load()
+	hs := hashStr(site) ^ seed*0x9e3779b97f4a7c15
+	ks := make([]kh, 0, len(m))
+	for k := range m {
+		s := fmt.Sprint(k)
+		h := uint64(0)
+		if seed != 0 {
+			h = hashStr(s) ^ hs
+			h ^= h >> 29
+			h *= 0xbf58476d1ce4e5b9
+			h ^= h >> 32
+		}
+		ks = append(ks, kh{k, h, s})
+	}
+	sort.Slice(ks, func(i, j int) bool {
+		if ks[i].h != ks[j].h {
+			return ks[i].h < ks[j].h
+		}
+		return ks[i].s < ks[j].s
+	})
+	out := make([]K, len(ks))
+	for i := range ks {
+		out[i] = ks[i].k
+	}
+	return out
+}
